@@ -874,7 +874,7 @@ def run(ctx):
         ctx.build_driver("rematch")
     with cf.ThreadPoolExecutor(max_workers=4) as ex:
         fb = ex.submit(builds)
-        fs = ex.submit(tlc_job, ctx, "sel", "SelectionMC", f"Selection_{tier}.cfg", 4 if not thorough else 6, 2400)
+        fs = ex.submit(tlc_job, ctx, "sel", "SelectionMC", f"Selection_{tier}.cfg", 4 if not thorough else 6, 2400, thorough)
         fd = ex.submit(tlc_job, ctx, "disc", "Recursive", f"Recursive_discovery_{tier}.cfg", 3 if not thorough else 5, 2400, thorough)
         fi = ex.submit(tlc_job, ctx, "inh", "Recursive", f"Recursive_inherit_{tier}.cfg", 3 if not thorough else 5, 2400, thorough)
         fb.result()
@@ -885,6 +885,10 @@ def run(ctx):
         ctx.cov["transitions"] += r.generated
     tick(ctx, "tlc_and_build", t0)
     t0 = time.time()
+    if thorough:
+        z = [ln for ln in r_sel.coverage_zero() if "Selection" in ln]
+        if z:
+            raise MachineryError(f"vacuous: actions of Selection.tla never taken: {z}")
     sel_cases, decls = sel_model(ctx, r_sel)
     rec_cases = rec_model(ctx, [("discovery", r_disc), ("inherit", r_inh), ("deep", r_deep)], thorough)
     tick(ctx, "parse_exports", t0)
